@@ -86,6 +86,9 @@ SHAPES = (bezier.Curve, bezier.Triangle, bezier.CurvedPolygon)
 
 
 # ------------------------------------------------------------------------------------------ values
+BUFFERS = {}
+
+
 def mk_array(d):
     """array descriptor {"a": nested list, "layout": L} -> the Python value handed to the library"""
     lay = d.get("layout", "F")
@@ -94,6 +97,15 @@ def mk_array(d):
     if lay == "intlist":
         return [[int(x) for x in r] for r in d["a"]]
     a = np.array(d["a"], dtype=np.float64)
+    if d.get("buf"):
+        # a caller-owned buffer that lives as long as the process: refilled in place and handed over again (the same array
+        # OBJECT with other values); in a fresh process it is simply a new array
+        key = (d["buf"], a.shape, lay)
+        if key in BUFFERS:
+            BUFFERS[key][...] = a
+        else:
+            BUFFERS[key] = np.asfortranarray(a) if lay == "F" else np.ascontiguousarray(a)
+        return BUFFERS[key]
     if lay == "F":
         return np.asfortranarray(a)
     if lay == "C":
@@ -385,11 +397,18 @@ def run_history(descs, emit):
     seen = set()
     emit({"start": True, "sizes": hidden_sizes()})
 
+    by_id = {}
+
     def register(label, arr, kind):
         if id(arr) in seen:
+            if any(arr is b for b in BUFFERS.values()):
+                # a caller-owned buffer that THIS HARNESS has just refilled for the coming call: its recorded hash is brought
+                # up to date (every call is followed by a sweep, so a write by the library was seen before the refill)
+                by_id[id(arr)][2] = ahash(arr)
             return
         seen.add(id(arr))
         registry.append([label, arr, ahash(arr), kind])
+        by_id[id(arr)] = registry[-1]
 
     def refresh_caches():
         # cached edges appear lazily: register them when first seen
